@@ -12,9 +12,11 @@ macro "rows_simp" : tactic =>
 
 set_option hygiene false in
 macro "rows_arith" : tactic =>
-  `(tactic| (by_cases h0 : life = 0 <;> by_cases hm : maxLife = 0 <;> by_cases hk1 : ka = 1 <;>
-      by_cases hkg : 1 < ka <;> by_cases hk0 : ka = 0 <;>
-      (try simp [applyEffs, applyEff, startTimer, resetLife, resetKa, h0, hm, hk1, hkg, hk0]) <;> (try omega)))
+  `(tactic| (
+    have hk3 : ka = 0 ∨ ka = 1 ∨ (1 < ka ∧ ka ≠ 0 ∧ ka ≠ 1) := by omega
+    rcases hk3 with hk | hk | ⟨hkg, hk0, hk1⟩ <;>
+      by_cases h0 : life = 0 <;> by_cases hm : maxLife = 0 <;>
+      (try simp [applyEffs, applyEff, startTimer, resetLife, resetKa, *]) <;> (try omega)))
 
 set_option hygiene false in
 macro "rows_state" : tactic =>
